@@ -45,7 +45,11 @@ pub struct NoOracle;
 impl Oracle for NoOracle {}
 
 pub fn for_case(case: &Case) -> Box<dyn Oracle> {
+    use crate::reuse::{Modes, ReuseOracle};
     match case.property.as_str() {
+        "C03" => Box::new(ReuseOracle::new(case, Modes { justify: true, ..Default::default() })),
+        "C04" => Box::new(ReuseOracle::new(case, Modes { justify: true, untracked_rule: true, ..Default::default() })),
+        "C06" => Box::new(ReuseOracle::new(case, Modes { justify: true, ts_identity: true, ..Default::default() })),
         _ => Box::new(NoOracle),
     }
 }
